@@ -33,6 +33,7 @@ TARGETS = {
     "timers": (["vfz.c", "vk.c", "t_timers.c"], WRAPS_VK, "asan", []),
     "pump": (["vfz.c", "t_pump.c"], ["read", "write", "splice", "shutdown"], "asan", []),
     "mt": (["vfz.c", "vk.c", "vsched.c", "t_mt.c"], WRAPS_VK + WRAPS_SCHED, "asan", []),
+    "sig": (["vfz.c", "vk.c", "vsched.c", "t_sig.c"], WRAPS_VK + WRAPS_SCHED, "asan", []),
 }
 
 
